@@ -42,26 +42,51 @@ def spec_scan(ops, impl):
     the replay of a prefix of the written entries that includes every entry written before the last
     fsync that completed before the crash point; the append after recovery is visible."""
     bad = []
+    blk_n, flushed = {}, []
     written, at_op, syncs = [], {}, []
+    acked, pending_ack, nops = [], None, 0   # (first op index after an acknowledged Sync/Close, entries written by then)
     for i, op in enumerate(ops):
         if i >= len(impl):
             break
         f = op.split(" ")
         rep = impl[i]
+        if f[0] != "log" and pending_ack is not None:
+            acked.append((nops, pending_ack))
+            pending_ack = None
         if f[0] == "case":
             written, at_op, syncs = [], {}, []
+            acked, pending_ack, nops = [], None, 0
+            blk_n, flushed = {}, []     # entries per block id; (op index of a completed payload write, entries on disk by then)
+        elif f[0] == "blk":
+            blk_n[f[1]] = len(f[4].split(";")) if f[4] not in ("", "-") else 0
         elif f[0] == "act" and f[1] == "w":
             written = written + f[2].split(",")
-        elif f[0] == "log":
+        elif f[0] == "act" and f[1] in ("sync", "close") and rep == "ok ok" and (written or nops):
+            # Sync()/Close() returned nil to the caller (what fileWriterHandler treats as durable)
+            pending_ack = len(written) if nops or True else None
+        elif f[0] in ("log", "plant"):
             idx = int(f[1])
+            nops = idx + 1
             at_op[idx] = len(written)
             if f[2] == "sync" and f[8] == "ok":
                 syncs.append(idx)
+            if f[0] == "log" and f[2] == "write" and f[3] == "main" and f[7].startswith("bp:") and f[8] == "ok":
+                flushed.append((idx, (flushed[-1][1] if flushed else 0) + blk_n.get(f[7][3:], 0)))
         elif f[0] == "img":
             ci, cj = int(f[1]), int(f[2])
             r = S.parse_img_reply(rep)
             done = [s for s in syncs if s < ci]
             lo = at_op[done[-1]] if done else 0
+            # an acknowledged Sync/Close that completed before the crash point makes its entries durable,
+            # fsync or not (a chronicler that never opened a writer has nothing to sync)
+            if ci == cj:
+                # plain process death: every block whose payload write completed is in the file
+                for bidx, cnt in flushed:
+                    if bidx < ci:
+                        lo = max(lo, cnt)
+            for aidx, cnt in acked:
+                if aidx <= ci and cj >= 0:
+                    lo = max(lo, cnt if any(k < aidx for k in at_op) else lo)
             ok = False
             for m in range(lo, len(written) + 1):
                 st = {}
@@ -72,21 +97,26 @@ def spec_scan(ops, impl):
                     after[9000] = "77"
                     if "A" in r and r["A"] != S.fmt_state(after):
                         bad.append((i, "after recovery from crash image %s (state %s) a record was appended and synced; "
-                                       "the next load returns %s" % (" ".join(f[1:]), r.get("C"), r["A"])))
+                                       "the next load returns %s" % (" ".join(f[1:]), r.get("C"), r["A"]), "append"))
                     break
             if not ok:
-                bad.append((i, "crash image %s loads %s (reader: %s); %d entries were fsynced before the crash point"
-                            % (" ".join(f[1:]), r.get("C"), r.get("L"), lo)))
+                bad.append((i, "crash image %s loads %s (reader: %s); %d entries were fsynced or acknowledged by a completed Sync/Close before the crash point"
+                            % (" ".join(f[1:]), r.get("C"), r.get("L"), lo), "recover"))
         elif f[0] == "tick":
             want = ",".join("%d=%d" % (k, 100 + k) for k in range(1, int(f[1]) + 1))
             if rep.split("\t")[0] != "tick " + want:
-                bad.append((i, "after a write tick returned, %s of %s saved records are on disk" % (rep, f[1])))
+                bad.append((i, "after a write tick returned, %s of %s saved records are on disk" % (rep, f[1]), "ack"))
     return bad
 
 
+# which part of the Spec a finding id is about (an oracle hit is covered only by a listed finding of the same class)
+CLASSES = {"C02-torn-payload-load-error": "recover", "C02-crash-loses-synced-data": "recover",
+           "C02-append-after-torn-tail-strands": "append", "C02-torn-create-bricks-swamp": "append",
+           "C02-ack-not-durable": "ack"}
+
+
 def spec_violated(rep):
-    bad = spec_scan(rep["ops"], rep["impl"])
-    return bad[0][1] if bad else None
+    return S.first_relevant(rep, spec_scan, K.known_ids("C02"), CLASSES)
 
 
 def run(ctx):
@@ -109,9 +139,9 @@ def run(ctx):
     K.report_mismatch(ctx, spec_violated)
     bad = spec_scan(c.ops, c.impl) if not c.err else []
     mism = set(c.mismatch)
-    unflagged = [(i, why) for i, why in bad if i not in mism and not (i < len(c.flags) and c.flags[i])]
+    unflagged = [h for h in S.relevant_hits(bad, c.flags, K.known_ids("C02"), CLASSES, -1) if h[0] not in mism]
     if unflagged:
-        i, why = unflagged[0]
+        i, why, _ = unflagged[0]
         rep = K.case_replay(c, K.case_of(c, i), upto=i)
         rep.update({"correspondence": "C02", "oracle": "spec_scan", "violations": len(unflagged)})
         ctx.violation("implementation violates the property (not predicted by the model): " + why, rep, tag="spec")
